@@ -13,7 +13,10 @@ the innermost activation, which performs one failing operation inside optional b
                               range / char-boundary / radix errors, repeat count, nil object, filter callback
                               clearing its list, index_of on maps, map inside a list used as key, byte / bigint
                               overflow; the zero-divisor matrix {/, %, /=, %=} x dividend {int, bigint, byte, float}
-                              x divisor {int 0, B0, 0b0, 0.0} (the 52 cells the compiler accepts)
+                              x divisor {int 0, B0, 0b0, 0.0} (the 52 cells the compiler accepts); a size the machine
+                              cannot provide (ensure_inner_capacity(i32::MAX), str * B10^12 in every operand order)
+Two probes outside the plans: recursion of depth 50000 (known finding `deep-recursion-aborts`) and a linked list of 20000
+objects built by a loop (known finding `long-reference-chain-aborts`: the collector's recursive mark phase).
 
 One tree (coregen encoding + a few extension nodes) is rendered to .ms; the expected result -- stdout
 prefix, the call chain innermost first with the block markers, the assert position, exit status -- is
@@ -362,6 +365,24 @@ for _opn, _op in ZD_OPS.items():
             OTHER_KINDS[_k] = [raws('%s\n%s\n%s\nr = 1' % (ZD_DIVIDEND[_dk], ZD_ZERO[_zk], _stmt))]
             ZERO_DIVISOR_KINDS.append(_k)
 
+# ---- a size the machine cannot provide (hunt2 D1 / D2).  The operand is inside the range the operation checks (it fits its
+# integer kind, the product does not overflow), but the buffer it asks for is 171 GB / 2 TB: `Vec::reserve` / `str::repeat`
+# call handle_alloc_error, which ABORTS the process.  The property wants a run-time error report (or, on a machine that
+# really has the memory, a run to the end); the empty-string cell has a defined result of length 0 and must not spin.
+_HUGE = 'B1000000000000'
+ALLOC_KINDS = {
+    'alloc:ensure-capacity:literal': 'l: [int...] = [1, 2, 3]\nl.ensure_inner_capacity(2147483647)\nr = 1',
+    'alloc:ensure-capacity:variable': 'l: [int...] = [1, 2, 3]\ncap = n + 2147483644\nl.ensure_inner_capacity(cap)\nr = 1',
+    'alloc:ensure-capacity:empty-list': 'l: [str...] = []\nl.ensure_inner_capacity(2147483647 - n)\nr = 1',
+    'alloc:str-times-bigint': 't = "ab" * %s\nr = 1' % _HUGE,
+    'alloc:str-times-bigint:variable': 'cnt = %s + n\nsrc = "abc"\nt = src * cnt\nr = 1' % _HUGE,
+    'alloc:bigint-times-str': 'cnt = %s\nt = cnt * "ab"\nr = 1' % _HUGE,
+    'alloc:str-times-assign': 't = "ab"\nt *= %s\nr = 1' % _HUGE,
+    'alloc:empty-str-times-bigint': 't = "" * %s\nr = 1' % _HUGE,
+}
+for _k, _body in ALLOC_KINDS.items():
+    OTHER_KINDS[_k] = [raws(_body)]
+
 P17 = ('class', 'P17', [('v', 'int')], ([], [raws('self.v = 1')]), [], False)
 Q17 = ('class', 'Q17', [('cap', ('opt', 'int'))], ([], [raws('self.cap = nil')]), [], False)
 S17 = ('class', 'S17', [('attrs', 'map[str, int]')], ([], [raws('self.attrs = map[str, int]')]), [], False)
@@ -374,7 +395,7 @@ for _k in OBJECT_KEY_KINDS:
 
 # kinds whose meaning the language may define otherwise than as a failure (`nil < 3` could be false, an object that holds a
 # map could be a usable key): a run to the end is accepted, a panic / abort / wrong report is not
-MAY_NOT_FAIL = set(NIL_ORDER_KINDS) | set(NIL_ARG_KINDS) | set(OBJECT_KEY_KINDS)
+MAY_NOT_FAIL = set(NIL_ORDER_KINDS) | set(NIL_ARG_KINDS) | set(OBJECT_KEY_KINDS) | set(ALLOC_KINDS)
 # kinds a correct implementation may also refuse at compile time (the defect is that the type checker lets them through)
 COMPILE_TIME_OK = {'map-in-list-key'} | MAY_NOT_FAIL
 
@@ -771,6 +792,9 @@ def panic_t2(binary, hbin, vm_drv, b, base):
 
 DEEP = ("f = fn(n: int) -> int {\n  if n == 0 {\n    return 0\n  }\n  return self(n - 1) + 1\n}\nprint \"start\"\nprint f(%d)\n")
 STACK_CLASS = 'deep-recursion-aborts'
+CHAIN = ("class Node17 {\n  v: int\n  next: Self?\n  constructor(self, v: int, next: Self?) {\n    self.v = v\n    self.next = next\n  }\n}\n"
+         "print \"start\"\nhead: Node17? = nil\ni = 0\nwhile i < %d {\n  head = Node17(i, head)\n  i = i + 1\n}\nprint \"built\"\nprint (get head).v\n")
+CHAIN_CLASS = 'long-reference-chain-aborts'
 
 
 def run(ctx):
@@ -893,6 +917,27 @@ def run(ctx):
                    {"program": DEEP % 50000, "observed_exit": rc, "observed_stderr": first_panic_line(err)})
     elif rc != 0 and 'MSCRIPT INTERPRETER FATAL RUNTIME ERROR' not in err:
         ctx.report('deep-recursion:unreported', 'recursion of depth 50000: exit %s without a run-time error report' % rc, {"program": DEEP % 50000, "stderr": err[-400:]})
+
+    # ---------------- a long chain of references (hunt2 D4): no recursion in the program, the call depth never exceeds 2; the
+    # collector's mark phase follows head -> next -> next ... on the native stack and overflows it at the next collection
+    def chain(n):
+        d = programs.materialize({"files": {"main.ms": CHAIN % n}}, base)
+        return programs.run_bin(binary, ["run", "main.ms", "-q"], d, timeout=120)
+    rc, out, err = chain(200)
+    if rc != 0 or lines_of(out) != ['start', 'built', '199']:
+        ctx.report('reference-chain-200', 'a linked list of 200 nodes does not work: rc %s %s' % (rc, (out + err)[-300:]), {"program": CHAIN % 200})
+    rc, out, err = chain(20000)
+    if programs.exit_class(rc) in ('abort', 'panic'):
+        ctx.report(CHAIN_CLASS, 'building a linked list of 20000 objects in a loop at module level ends with a native stack overflow in the garbage '
+                   'collector (exit %s), not an MScript error: %s' % (rc, first_panic_line(err)),
+                   {"program": CHAIN % 20000, "observed_exit": rc, "observed_stdout": out[-200:], "observed_stderr": first_panic_line(err)})
+    elif rc == 0:
+        if lines_of(out) != ['start', 'built', '19999']:
+            ctx.report('reference-chain:wrong-output', 'a linked list of 20000 nodes: exit 0 but the output is %r' % lines_of(out)[-3:], {"program": CHAIN % 20000})
+    elif rc == 124:
+        ctx.report('reference-chain:timeout', 'a linked list of 20000 nodes: no result within 120 s', {"program": CHAIN % 20000})
+    elif 'MSCRIPT INTERPRETER FATAL RUNTIME ERROR' not in err:
+        ctx.report('reference-chain:unreported', 'a linked list of 20000 nodes: exit %s without a run-time error report' % rc, {"program": CHAIN % 20000, "stderr": err[-400:]})
 
     if len(rejected) > max(3, len(built) // 20):
         b, msg = rejected[0]
